@@ -4,11 +4,11 @@ CONSTANTS
   Denote <- DenoteMC
   Limits <- MCLimits
   HBMode = "off"
-  Table = "GPOS"
+  Table = "GSUB"
   MaxL = 1
   TwoSubs = FALSE
 SPECIFICATION MSpec
 CONSTRAINTS Bounded NoStuckLig
-INVARIANTS ReturnImpliesValid RaiseOnlyWhenStuck NoCrash
-PROPERTIES Progress
+INVARIANTS ReturnImpliesValid RaiseOnlyWhenStuck NoCrash TerminatesInv
+PROPERTIES Terminates
 CHECK_DEADLOCK FALSE
